@@ -185,3 +185,86 @@ def _loops(b):
         for v in succ[u]:
             if v in dom[u]:
                 yield (u, v)
+
+
+def check_canon_cycles(facts, rep):
+    """P3 (C06, "canonical cycles as dotted cups on coloured Seifert circles"): the Lee / Bar-Natan canonical cycle
+    alpha(o) puts exactly one dot on the cup of every Seifert circle - X when the circle's colour agrees with o, Y
+    otherwise - for o = true (and o = false when unreduced); the colouring is the bipartite colouring of the Seifert graph:
+    the circle through the base point gets A, a circle first reached from c1 gets other(colour of c1), and `other` exchanges
+    A and B. Swapped dots exchange alpha and its conjugate (invisible to ss over a symmetric pair), a non-alternating
+    colouring gives a chain that is not a cycle for h, t != 0."""
+    import re
+    from symex import SymEx, show
+    B = 'yui_kh::kh::internal::v2::builder::TngComplexBuilder::<R>::make_canon_cycles'
+    inner = facts.bodies.get(B + '::{closure#1}::{closure#0}')
+    outer = facts.bodies.get(B)
+    col = [b for k, b in facts.bodies.items() if k.endswith('LinkExt>::colored_seifert_circles')]
+    oth = [b for k, b in facts.bodies.items() if k.endswith('ext::link::Color::other')]
+    if not (inner and outer and len(col) == 1 and len(oth) == 1):
+        rep.indet('E12.P3: make_canon_cycles / colored_seifert_circles / Color::other not found')
+        return
+    col, oth = col[0], oth[0]
+    for b in (inner, outer, col, oth):
+        rep.saw(b)
+
+    def dk(t):
+        return re.sub(r'&mut _\d+', 'IT', re.sub(r'\^_ref__', '^', re.sub(r'#\d+\.\d+', '', show(t, -1000)))).replace('&', '').replace('*', '')
+    # dots
+    table = {}
+    for p in SymEx(inner).run():
+        if p.end != 'return':
+            continue
+        agree = next((e.value != 0 for e in p.branches() if dk(e.term) in ('Eq(is_a(arg2.1), arg1.^o)', 'Eq(arg1.^o, is_a(arg2.1))')), None)
+        dots = [dk(e.args[1]) for e in p.calls() if e.name.split('::')[-1] == 'add_dot' and len(e.args) == 2]
+        cups = [dk(e.args[0]) for e in p.calls() if e.name.split('::')[-1] == 'cup']
+        table[agree] = (tuple(dots), tuple(cups))
+    inst = 'make_canon_cycles|one dot per Seifert circle: X iff colour agrees with the orientation bit'
+    want = {True: (('Dot::X{}',), ('from(clone(arg2.0))',)), False: (('Dot::Y{}',), ('from(clone(arg2.0))',))}
+    if table == want:
+        rep.ok('E12.P3-canon-cycles', inst, 'agree -> X, differ -> Y, on the cup of the circle')
+    elif set(table) == {True, False} and all(len(v[0]) <= 2 and all(d in ('Dot::X{}', 'Dot::Y{}', 'Dot::None{}') for d in v[0]) for v in table.values()):
+        rep.violation('E12.P3-canon-cycles', inst, 'the dots placed on a Seifert circle are %s when its colour agrees with o and %s otherwise; expected exactly one X resp. one Y' % (table[True][0], table[False][0]), where=inner.where())
+    else:
+        rep.indet('E12.P3: dot assignment outside the recognised fragment: %s' % table)
+    # orientations
+    oris = set()
+    for p in SymEx(outer, max_paths=5000).run():
+        if p.end != 'return':
+            continue
+        red = next((e.value != 0 for e in p.branches() if dk(e.term) == 'is_some(arg2)'), None)
+        ws = [dk(e.term) for e in p.events if e.kind == 'write' and dk(e.term).startswith('[')]
+        oris.add((red, tuple(ws)))
+    inst = 'make_canon_cycles|orientations: [true] reduced, [true, false] unreduced'
+    if oris == {(True, ('[1]',)), (False, ('[1, 0]',))}:
+        rep.ok('E12.P3-canon-cycles', inst, 'alpha only / alpha and its conjugate')
+    else:
+        rep.indet('E12.P3: orientation list outside the recognised fragment: %s' % sorted(oris, key=str))
+    # colouring
+    rr = {(dk(p.ret), tuple((dk(e.term), e.value) for e in p.branches())) for p in SymEx(oth).run() if p.end == 'return'}
+    inst = 'Color::other|exchanges A and B'
+    if rr == {('Color::B{}', (('discr(arg1)', 0),)), ('Color::A{}', (('discr(arg1)', 1),))}:
+        rep.ok('E12.P3-canon-cycles', inst, 'A <-> B')
+    else:
+        rep.violation('E12.P3-canon-cycles', inst, 'Color::other is %s' % sorted(rr), where=oth.where())
+    start = None
+    step = set()
+    for p in SymEx(col, havoc_loops=True, max_paths=20000).run():
+        for e in p.events:
+            if e.kind == 'write' and e.lv:
+                lv = dk(('mref', e.lv))
+                if 'index_mut(IT, unwrap(find_position(IT, closure<{closure#0}>)).0)' in lv:
+                    start = dk(e.term)
+                elif 'index_mut(IT, next(IT).Some.0)' in lv:
+                    step.add(re.sub(r'loop\d+_\d+', 'COLORS', dk(e.term)))
+    base_cl = None
+    for k, b in facts.bodies.items():
+        if k.endswith('colored_seifert_circles::{closure#0}'):
+            base_cl = [dk(p.ret) for p in SymEx(b).run() if p.end == 'return']
+    inst = 'colored_seifert_circles|base circle A, neighbours get the other colour'
+    if start == 'Color::A{}' and step == {'other(index(COLORS, remove(IT, 0)))'} and base_cl == ['contains(deref(edges(arg2)), arg1.^base)']:
+        rep.ok('E12.P3-canon-cycles', inst, 'colors[i2] = colors[i1].other(); start = circle containing the base point')
+    elif step and all(s.startswith(('other(', 'index(', 'Color::')) for s in step) and step != {'other(index(COLORS, remove(IT, 0)))'}:
+        rep.violation('E12.P3-canon-cycles', inst, 'a newly reached Seifert circle is coloured %s instead of other(colour of the circle it was reached from)' % sorted(step), where=col.where())
+    else:
+        rep.indet('E12.P3: colouring outside the recognised fragment: start %s, step %s, base %s' % (start, sorted(step), base_cl))
